@@ -43,6 +43,8 @@ EXPECT = [((0, 'lo'), (1, 'lo')), ((2, 'hi'), (1, 'lo')), ((0, 'lo'), (3, 'hi'))
 # ------------------------------------------------------------------------------------------------
 # reading the quadrant comparisons off the current source
 # ------------------------------------------------------------------------------------------------
+TIE_SCALE = 3   # once the tie is broken the failing-input search runs at this multiple of the budget (default 10; this check is slow)
+
 def extract_flags(repo):
     """-> (flags 'x0y0x1y1x2y2x3y3' as 0/1 string, None) or (None, reason)"""
     try:
